@@ -577,6 +577,104 @@ def bname(b):
     return "b=" + ("x".join(str(i) for i in b) if b else "-")
 
 
+def _float_leaves(enc, o):
+    seen, res = set(), []
+    for t in enc.leaves(o):
+        if t.dtype.is_floating_point and id(t) not in seen:
+            seen.add(id(t))
+            res.append(t)
+    return res
+
+
+def rg_patterns(n, rng_pick):
+    """initial requires_grad patterns over n distinct floating leaves"""
+    pats = [("allF", [False] * n), ("allT", [True] * n)]
+    for name, k in (("one0", 0), ("oneLast", n - 1), ("oneK", rng_pick)):
+        pats.append((name, [i == k for i in range(n)]))
+    for name, k in (("allbut0", 0), ("allbutK", rng_pick)):
+        pats.append((name, [i != k for i in range(n)]))
+    out, seen = [], set()
+    for name, p in pats:
+        if tuple(p) not in seen:
+            seen.add(tuple(p))
+            out.append((name, p))
+    return out
+
+
+def rg_histories(chk, enc, R, case, base_cell, cfgs, lines, expect):
+    """requires_grad_ histories: initial flag pattern x target value, on operators that hold sub-operators.
+    Every floating leaf must end with the requested flag, integer / boolean leaves stay False, and after
+    requires_grad_(True) a backward pass through `op @ rhs` reaches every floating leaf that the dense path reaches."""
+    o0 = case.build(R)
+    if not any(enc.is_op(a) for a in list(o0._args) + list(o0._kwargs.values())):
+        return
+    n = len(_float_leaves(enc, o0))
+    if n < 2:
+        return
+    pick = case.seed % n
+    for pname, pat in rg_patterns(n, pick):
+        for target in (True, False):
+            o = case.build(R)
+            fl = _float_leaves(enc, o)
+            if len(fl) != n:
+                return
+            cell = f"{base_cell}/requires_grad_[{pname}->{int(target)}]"
+            pl = dict(case.payload("requires_grad_"), pattern=pname, target=target)
+            try:
+                for t, f in zip(fl, pat):
+                    t.requires_grad_(f)
+            except RuntimeError:
+                chk.count("rg-history-not-settable")
+                return
+            ids, pos = enc.ref_ids(o)
+            before = enc.encode(o, ids, pos)
+            chk.case(f"{case.recipe}|{case.b}|{cfgs}|rg-history|{pname}|{target}|{case.seed}")
+            chk.count("rg-history")
+            try:
+                o.requires_grad_(target)
+            except Exception as e:  # noqa
+                chk.violation(cell + "/raises", f"{cfgs}: requires_grad_({target}) raised {type(e).__name__}: {str(e)[:120]}", pl)
+                continue
+            lv = enc.leaves(o)
+            bad = [i for i, t in enumerate(lv) if t.requires_grad != (target and t.dtype.is_floating_point)]
+            ok = not bad
+            if bad:
+                t = lv[bad[0]]
+                chk.violation(cell + "/rg", f"{cfgs}: initial flags {pat}: after requires_grad_({target}) tensor #{bad[0]} ({t.dtype}, "
+                              f"shape {tuple(t.shape)}) has requires_grad={t.requires_grad}", pl)
+            if o.requires_grad != bool(target and any(t.dtype.is_floating_point for t in lv)):
+                ok = False
+                chk.violation(cell + "/rg", f"{cfgs}: requires_grad property is {o.requires_grad} after requires_grad_({target})", pl)
+            lines.append(f"setrg {int(target)} {before}")
+            expect.append(("str", (enc.encode(o, ids, pos), cell, pl)) if ok else ("skip", None))
+            if target and ok and pname in ("allF", "oneK", "one0"):
+                # gradient smoke test: after requires_grad_(True) a backward pass through `op @ rhs` (and through the dense
+                # form) must reach every floating leaf that it reaches when all flags are switched on by hand
+                try:
+                    with warnings.catch_warnings():
+                        warnings.simplefilter("ignore")
+                        ref = case.build(R)
+                        rfl = _float_leaves(enc, ref)
+                        for t in rfl:
+                            t.requires_grad_(True)
+                        rhs = torch.ones(o.shape[-1], 2, dtype=fl[0].dtype)
+                        ref_g = torch.autograd.grad((ref @ rhs).sum(), rfl, allow_unused=True)
+                        op_g = torch.autograd.grad((o @ rhs).sum(), fl, allow_unused=True)
+                        ref_d = torch.autograd.grad((ref.to_dense() @ rhs).sum(), rfl, allow_unused=True)
+                        op_d = torch.autograd.grad((o.to_dense() @ rhs).sum(), fl, allow_unused=True)
+                except Exception:  # noqa: not differentiable along one of the paths (C07's matter)
+                    chk.count("rg-grad-not-available")
+                    continue
+                chk.count("rg-grad-checked")
+                for kind, gr, go in (("matmul", ref_g, op_g), ("dense", ref_d, op_d)):
+                    for i, (a, c) in enumerate(zip(gr, go)):
+                        if (a is None) != (c is None) or (a is not None and not torch.allclose(a, c, atol=1e-3, rtol=1e-4)):
+                            chk.violation(cell + "/grad", f"{cfgs}: gradient of floating tensor #{i} through the {kind} path differs from the "
+                                          f"gradient obtained with all flags set by hand ({'None' if c is None else 'value'} vs "
+                                          f"{'None' if a is None else 'value'})", pl)
+                            break
+
+
 def run_case(chk, enc, R, case, opnames, lines, expect, overridden):
     """All checks of one instance configuration.  Appends model lines; reports impl != spec immediately."""
     prev = torch.get_default_dtype()
@@ -628,6 +726,7 @@ def run_case(chk, enc, R, case, opnames, lines, expect, overridden):
             chk.violation(f"{base_cell}/requires_grad_/raises", f"{cfgs}: requires_grad_(True) raised {type(e).__name__}: {e}", case.payload("requires_grad_"))
             rg_src = None
         chk.case(f"{case.recipe}|{case.b}|{cfgs}|requires_grad_|{case.seed}")
+        rg_histories(chk, enc, R, case, base_cell, cfgs, lines, expect)
         other = None
         for opname in opnames:
             tgt = op_target(opname, eff_src)
